@@ -77,9 +77,7 @@ class Engine:
         return Val(k, z3.Const(fresh_name(base), sort_of(k)))
 
     def new_ref(self, st):
-        r = st.heap.alloc
-        st.heap.alloc = r + 1
-        return r
+        return st.heap.new_ref()
 
     def assume_valid_ref(self, st, v, optional=False):
         if is_ref_kind(v.k):
@@ -130,7 +128,7 @@ class Engine:
     def arr_shape(self, st, v):
         s0 = st.heap.rd('sh0', v.t)
         sh = [s0] if v.k[1] == 1 else [s0, st.heap.rd('sh1', v.t)]
-        key = 'shape>=0:%s:%s' % (v.t.sexpr(), st.heap.get('sh0').get_id())
+        key = 'shape>=0:%s:%s' % (v.t.sexpr(), s0.get_id())
         if key not in st.ghost:
             st.ghost[key] = True
             for s_ in sh:
@@ -535,6 +533,9 @@ class Engine:
         if sch is None or name not in sch.fields:
             raise ContractError("no schema for field %s.%s" % (cls, name))
         fk = sch.fields[name]
+        ov = (self.frame.contract.ghost.get('schema') or {}).get(cls + '.' + name) if self.frame else None
+        if ov:
+            fk = parse_kind(ov)
         return 'f:%s.%s:%s' % (cls, name, elem_tag(fk)), fk
 
     def get_attr(self, st, base, attr, node):
